@@ -191,8 +191,8 @@ PROPS = {
         "units": [U('pyvc.frames', 'digest_reads_frame', 'digest.reads_frame'),
                   U('pyvc.frames', 'digest_injective', 'digest.distinguishes_options'),
                   U('pyvc.frames', 'render_write_frame', 'render.write_frame'),
-                  K("loader.py::ModuleLoader.build")],
-        "not_decided": ["ModuleLoader.get/_load and _get_module_name",
+                  K("loader.py::ModuleLoader.build"), K("loader.py::ModuleLoader._load")],
+        "not_decided": ["ModuleLoader.get and _get_module_name",
                         "two-writer interleavings (schedule-quantified)"],
         "assumptions": COMMON_ASSUMPTIONS + ["POSIX: rename is atomic, mkstemp names are unique"],
     },
